@@ -1663,7 +1663,7 @@ func dotGetSetHelper(env *Zlisp, name string, setVal *Sexp) (Sexp, error) {
 	// have hash: rest of path handled in hashutils.go in nestedPathGet()
 	//Q("\n in dotGetSetHelper(), about to call nestedPathGetSet() with"+
 	//	"dotpaths = path[i+1:]='%#v\n", path[1:])
-	exp, err := h.nestedPathGetSet(env, path[1:], setVal)
+	exp, err := h.nestedPathGetSet(env, path[1:], setVal, nil)
 	if err != nil {
 		return SexpNull, err
 	}
